@@ -3,6 +3,7 @@
 -/
 import Irc.Inv
 import Irc.Lemmas.Frame
+import Irc.InvCheck
 
 namespace Irc
 
@@ -373,5 +374,516 @@ theorem Map.insert_lookup_self {α : Type} (k : Str) (v : α) (m : Map α) (h : 
     split
     · rename_i hk; simp_all
     · rename_i hk; simp only [hk, ↓reduceIte] at h; rw [ih h]
+
+/-! ### `processModeChannel` as a whole -/
+
+theorem Map.contains_iff_mem_keys {α : Type} (k : Str) (m : Map α) : Map.contains k m = true ↔ k ∈ Map.keys m := by
+  rw [Map.contains_iff, Map.mem_keys_iff]
+
+theorem processModeChannel_nonempty (cfg : Cfg) (c : Nat) (target : Str) (ch : Channel)
+    (modes : List (Str × List Str)) (chum : ChanUserModes) (x : Ctx) (hne : modes ≠ [])
+    (hmem : ∀ n, Map.contains n ch.users = true → Map.contains n x.w.users = true) :
+    let cn := x.conn c
+    let a := modes.foldl (modeGroup cfg cn target chum) { x := x, ch := ch, args := [] }
+    let x' := processModeChannel cfg c target ch modes chum x
+    x'.w = { x.w with channels := Map.insert target a.ch x.w.channels, panicked := a.x.w.panicked } ∧
+    x'.direct = a.x.direct ∧
+    x'.queued = x.queued ++
+      (match modeAnnouncement target a.setStr a.unsetStr a.paramsStr with
+       | some line => (Map.keys a.ch.users).map (fun n => (ownerOf x.w n, ':' :: (cn.source ++ ' ' :: line)))
+       | none => []) := by
+  intro cn a x'
+  have hfr : ModeFrame { x := x, ch := ch, args := [] } a := modeRun_frame cfg cn target chum _ modes
+  obtain ⟨hq, ⟨p, hw⟩, -, hk, -, -, -⟩ := hfr
+  simp only at hq hw hk
+  have hemp : modes.isEmpty = false := by cases modes <;> simp_all
+  have hx' : x' = (match modeAnnouncement target a.setStr a.unsetStr a.paramsStr with
+      | some line => (Map.keys a.ch.users).foldl (fun x n => x.sendDisplay n cn.source line)
+          (a.x.modifyW (fun w => { w with channels := Map.insert target a.ch w.channels }))
+      | none => a.x.modifyW (fun w => { w with channels := Map.insert target a.ch w.channels })) := by
+    show processModeChannel cfg c target ch modes chum x = _
+    unfold processModeChannel
+    simp only [hemp, Bool.false_eq_true, ↓reduceIte]
+    rfl
+  have hwp : a.x.w.panicked = p := by rw [hw]
+  rw [hx']
+  cases hann : modeAnnouncement target a.setStr a.unsetStr a.paramsStr with
+  | none =>
+    simp only [Ctx.modifyW_w, Ctx.modifyW_direct, Ctx.modifyW_queued, hq, List.append_nil, and_true]
+    rw [hw]
+  | some line =>
+    simp only
+    rw [Ctx.sendDisplayAll_known]
+    · simp only [Ctx.modifyW_w, Ctx.modifyW_direct, Ctx.modifyW_queued, hq]
+      refine ⟨by rw [hw], trivial, ?_⟩
+      congr 1
+      apply List.map_congr_left
+      intro n _
+      simp only [ownerOf, hw]
+    · intro n hn
+      simp only [Ctx.modifyW_w, hw]
+      apply hmem
+      rw [Map.contains_iff_mem_keys, ← hk]; exact hn
+
+/-! ### KICK: the selection loop -/
+
+/-- may this member be selected (second argument: the actor is a mere half-operator) -/
+def kickOk (m : ChanUserModes) (onlyHalf : Bool) : Bool :=
+  !m.isProtected && (!m.isHalfOperator || !onlyHalf)
+
+theorem kickSelect_fst_mem (client channel : Str) (ch : Channel) (onlyHalf : Bool)
+    (users acc : List Str) (v : Str) :
+    v ∈ (kickSelect client channel ch onlyHalf users acc).1 ↔
+      v ∈ acc ∨ (v ∈ users ∧ ∃ m, Map.lookup v ch.users = some m ∧ kickOk m onlyHalf = true) := by
+  induction users generalizing acc with
+  | nil => simp [kickSelect]
+  | cons ku rest ih =>
+    unfold kickSelect
+    cases hm : Map.lookup ku ch.users with
+    | none =>
+      simp only [ih, List.mem_cons]
+      constructor
+      · rintro (h | ⟨h1, h2⟩)
+        · exact Or.inl h
+        · exact Or.inr ⟨Or.inr h1, h2⟩
+      · rintro (h | ⟨h1 | h1, m, h2, h3⟩)
+        · exact Or.inl h
+        · subst h1; rw [hm] at h2; cases h2
+        · exact Or.inr ⟨h1, m, h2, h3⟩
+    | some chum =>
+      simp only
+      by_cases hk : kickOk chum onlyHalf = true
+      · have hk' : (!chum.isProtected && (!chum.isHalfOperator || !onlyHalf)) = true := hk
+        simp only [hk', ↓reduceIte, ih, List.mem_cons]
+        by_cases hany : acc.any (· == ku) = true
+        · have hin : ku ∈ acc := by simpa using hany
+          simp only [hany, ↓reduceIte]
+          constructor
+          · rintro (h | ⟨h1, h2⟩)
+            · exact Or.inl h
+            · exact Or.inr ⟨Or.inr h1, h2⟩
+          · rintro (h | ⟨h1 | h1, h2⟩)
+            · exact Or.inl h
+            · subst h1; exact Or.inl hin
+            · exact Or.inr ⟨h1, h2⟩
+        · simp only [hany, Bool.false_eq_true, ↓reduceIte, List.mem_append, List.mem_singleton]
+          constructor
+          · rintro ((h | h) | ⟨h1, h2⟩)
+            · exact Or.inl h
+            · subst h; exact Or.inr ⟨Or.inl rfl, chum, hm, hk⟩
+            · exact Or.inr ⟨Or.inr h1, h2⟩
+          · rintro (h | ⟨h1 | h1, h2⟩)
+            · exact Or.inl (Or.inl h)
+            · exact Or.inl (Or.inr h1)
+            · exact Or.inr ⟨h1, h2⟩
+      · have hk' : (!chum.isProtected && (!chum.isHalfOperator || !onlyHalf)) = false := by
+          simpa [kickOk] using hk
+        simp only [hk', Bool.false_eq_true, ↓reduceIte, ih, List.mem_cons]
+        constructor
+        · rintro (h | ⟨h1, h2⟩)
+          · exact Or.inl h
+          · exact Or.inr ⟨Or.inr h1, h2⟩
+        · rintro (h | ⟨h1 | h1, m, h2, h3⟩)
+          · exact Or.inl h
+          · subst h1; rw [hm] at h2; cases h2; exact absurd h3 hk
+          · exact Or.inr ⟨h1, m, h2, h3⟩
+
+theorem kickSelect_fst_nodup (client channel : Str) (ch : Channel) (onlyHalf : Bool)
+    (users acc : List Str) (hacc : acc.Nodup) :
+    (kickSelect client channel ch onlyHalf users acc).1.Nodup := by
+  induction users generalizing acc with
+  | nil => simpa [kickSelect] using hacc
+  | cons ku rest ih =>
+    unfold kickSelect
+    cases hm : Map.lookup ku ch.users with
+    | none => exact ih acc hacc
+    | some chum =>
+      simp only
+      split
+      · apply ih
+        by_cases hany : acc.any (· == ku) = true
+        · simpa [hany] using hacc
+        · have hin : ku ∉ acc := by simpa using hany
+          simp only [hany, Bool.false_eq_true, ↓reduceIte]
+          rw [List.nodup_append]
+          refine ⟨hacc, by simp, ?_⟩
+          intro a ha b hb
+          simp only [List.mem_singleton] at hb
+          subst hb; intro h; subst h; exact hin ha
+      · exact ih acc hacc
+
+/-- the reply for one listed nick: 441 for a non-member, 972 for a member that may not be
+    kicked, none for a kicked one -/
+def kickReply (client channel : Str) (ch : Channel) (onlyHalf : Bool) (ku : Str) : Option Str :=
+  match Map.lookup ku ch.users with
+  | none => some (ErrUserNotInChannel441 client ku channel)
+  | some m => if kickOk m onlyHalf then none else some (ErrCannotDoCommand972 client)
+
+theorem kickSelect_snd (client channel : Str) (ch : Channel) (onlyHalf : Bool)
+    (users acc : List Str) :
+    (kickSelect client channel ch onlyHalf users acc).2 =
+      users.filterMap (kickReply client channel ch onlyHalf) := by
+  induction users generalizing acc with
+  | nil => simp [kickSelect]
+  | cons ku rest ih =>
+    unfold kickSelect
+    cases hm : Map.lookup ku ch.users with
+    | none => simp [kickReply, hm, ih]
+    | some chum =>
+      simp only
+      by_cases hk : kickOk chum onlyHalf = true
+      · have hk' : (!chum.isProtected && (!chum.isHalfOperator || !onlyHalf)) = true := hk
+        simp [hk', kickReply, hm, hk, ih]
+      · have hk' : (!chum.isProtected && (!chum.isHalfOperator || !onlyHalf)) = false := by
+          simpa [kickOk] using hk
+        simp [hk', kickReply, hm, hk, ih]
+
+/-! ### KICK: removing the selected members -/
+
+/-- `C'` is `C` with the members `ks` removed from the member map and from the five rank
+    lists; everything else is as in `C` -/
+structure Removed (ks : List Str) (C C' : Channel) : Prop where
+  users : ∀ n, Map.lookup n C'.users = if n ∈ ks then none else Map.lookup n C.users
+  ranks : ∀ l n, KSet.mem n (rankList C'.modes l) = (!decide (n ∈ ks) && KSet.mem n (rankList C.modes l))
+  keys : Map.keys C'.users = (Map.keys C.users).filter (fun n => !decide (n ∈ ks))
+  same : SameSettings C C'
+
+theorem Removed.refl (C : Channel) : Removed [] C C :=
+  ⟨by simp, by simp, (List.filter_eq_self.mpr (by simp)).symm, ⟨rfl, rfl, rfl, rfl, rfl, rfl, rfl, rfl, rfl, rfl, rfl, rfl, rfl, rfl⟩⟩
+
+theorem SameSettings.trans {A B C : Channel} (h1 : SameSettings A B) (h2 : SameSettings B C) :
+    SameSettings A C :=
+  ⟨h2.topic.trans h1.topic, h2.defaultModes.trans h1.defaultModes, h2.banInfo.trans h1.banInfo,
+   h2.preconfigured.trans h1.preconfigured, h2.ban.trans h1.ban, h2.exception.trans h1.exception,
+   h2.inviteException.trans h1.inviteException, h2.clientLimit.trans h1.clientLimit, h2.key.trans h1.key,
+   h2.inviteOnly.trans h1.inviteOnly, h2.moderated.trans h1.moderated, h2.secret.trans h1.secret,
+   h2.protectedTopic.trans h1.protectedTopic, h2.noExternalMessages.trans h1.noExternalMessages⟩
+
+theorem Removed.trans {ks1 ks2 : List Str} {A B C : Channel} (h1 : Removed ks1 A B) (h2 : Removed ks2 B C) :
+    Removed (ks1 ++ ks2) A C := by
+  refine ⟨?_, ?_, ?_, h1.same.trans h2.same⟩
+  · intro n
+    rw [h2.users, h1.users]
+    by_cases a : n ∈ ks1 <;> by_cases b : n ∈ ks2 <;> simp [a, b]
+  · intro l n
+    rw [h2.ranks, h1.ranks]
+    by_cases a : n ∈ ks1 <;> by_cases b : n ∈ ks2 <;> simp [a, b]
+  · rw [h2.keys, h1.keys, List.filter_filter]
+    apply List.filter_congr
+    intro n _
+    by_cases a : n ∈ ks1 <;> by_cases b : n ∈ ks2 <;> simp [a, b]
+
+theorem Channel.removeUser_removed (C C1 : Channel) (k : Str) (h : C.removeUser k = some C1) :
+    Removed [k] C C1 := by
+  unfold Channel.removeUser at h
+  split at h
+  · cases h
+  · simp only [Option.some.injEq] at h
+    subst h
+    refine ⟨?_, ?_, ?_, ⟨rfl, rfl, rfl, rfl, rfl, rfl, rfl, rfl, rfl, rfl, rfl, rfl, rfl, rfl⟩⟩
+    · intro n
+      simp only [List.mem_singleton]
+      rw [Map.lookup_erase]
+      by_cases hn : n = k
+      · subst hn; simp
+      · simp [hn, Ne.symm hn]
+    · intro l n
+      simp only [rankList, List.mem_singleton]
+      repeat' split
+      all_goals first | exact KSet.mem_erase _ _ _ | simp [KSet.mem]
+    · simp only [Map.keys_erase, List.mem_singleton]
+      apply List.filter_congr
+      intro n _
+      by_cases hn : n = k <;> simp [hn]
+
+/-- one `remove_user_from_channel` -/
+theorem World.removeUserFromChannel_spec (w : World) (channel k : Str) :
+    (w.removeUserFromChannel channel k) =
+      { w with users := Map.modify k (fun u => { u with channels := KSet.erase channel u.channels }) w.users
+               channels := (w.removeUserFromChannel channel k).channels
+               panicked := (w.removeUserFromChannel channel k).panicked } ∧
+    (∀ c, c ≠ channel → Map.lookup c (w.removeUserFromChannel channel k).channels = Map.lookup c w.channels) ∧
+    (Map.lookup channel w.channels = none →
+      (w.removeUserFromChannel channel k).channels = w.channels ∧
+      (w.removeUserFromChannel channel k).panicked = w.panicked) ∧
+    (∀ C, Map.lookup channel w.channels = some C → Map.contains k C.users = true →
+      (w.removeUserFromChannel channel k).panicked = w.panicked ∧
+      ∀ C1, Map.lookup channel (w.removeUserFromChannel channel k).channels = some C1 → Removed [k] C C1) := by
+  cases hch : Map.lookup channel w.channels with
+  | none =>
+    have e : w.removeUserFromChannel channel k = { w with users := Map.modify k (fun u => { u with channels := KSet.erase channel u.channels }) w.users } := by
+      simp [World.removeUserFromChannel, hch]
+    rw [e]; simp
+  | some C =>
+    cases hr : C.removeUser k with
+    | none =>
+      have e : w.removeUserFromChannel channel k = { w with users := Map.modify k (fun u => { u with channels := KSet.erase channel u.channels }) w.users, panicked := some "remove_user_from_channel: not a member".toList } := by
+        simp [World.removeUserFromChannel, hch, hr, World.panic]
+      rw [e]
+      refine ⟨rfl, fun c _ => rfl, by simp, ?_⟩
+      intro C' hC' hk
+      cases hC'
+      simp [Channel.removeUser, hk] at hr
+    | some C1 =>
+      by_cases hemp : (C1.users.isEmpty && !C1.preconfigured) = true
+      · have e : w.removeUserFromChannel channel k = { w with users := Map.modify k (fun u => { u with channels := KSet.erase channel u.channels }) w.users, channels := Map.erase channel w.channels } := by
+          simp only [World.removeUserFromChannel, hch, hr, hemp, ↓reduceIte]
+        rw [e]
+        refine ⟨rfl, fun c hc => Map.lookup_erase_ne _ _ _ (Ne.symm hc), by simp, ?_⟩
+        intro C' hC' hk
+        refine ⟨rfl, ?_⟩
+        intro C2 hC2
+        simp at hC2
+      · have e : w.removeUserFromChannel channel k = { w with users := Map.modify k (fun u => { u with channels := KSet.erase channel u.channels }) w.users, channels := Map.insert channel C1 w.channels } := by
+          simp [World.removeUserFromChannel, hch, hr, hemp]
+        rw [e]
+        refine ⟨rfl, fun c hc => Map.lookup_insert_ne _ _ _ _ (Ne.symm hc), by simp, ?_⟩
+        intro C' hC' hk
+        cases hC'
+        refine ⟨rfl, ?_⟩
+        intro C2 hC2
+        simp only [Map.lookup_insert_eq, Option.some.injEq] at hC2
+        subst hC2
+        exact Channel.removeUser_removed _ _ _ hr
+
+/-- the loop `for ku in kicked { remove_user_from_channel(channel, ku) }` -/
+theorem kickFold_spec (channel : Str) (ks : List Str) (w : World) (hnd : ks.Nodup)
+    (hmem : ∀ C, Map.lookup channel w.channels = some C → ∀ k ∈ ks, Map.contains k C.users = true) :
+    (ks.foldl (fun w ku => w.removeUserFromChannel channel ku) w) =
+      { w with users := (ks.foldl (fun w ku => w.removeUserFromChannel channel ku) w).users
+               channels := (ks.foldl (fun w ku => w.removeUserFromChannel channel ku) w).channels } ∧
+    (∀ n, Map.lookup n (ks.foldl (fun w ku => w.removeUserFromChannel channel ku) w).users =
+      (Map.lookup n w.users).map (fun u =>
+        if n ∈ ks then { u with channels := KSet.erase channel u.channels } else u)) ∧
+    (∀ c, c ≠ channel → Map.lookup c (ks.foldl (fun w ku => w.removeUserFromChannel channel ku) w).channels =
+      Map.lookup c w.channels) ∧
+    (∀ C', Map.lookup channel (ks.foldl (fun w ku => w.removeUserFromChannel channel ku) w).channels = some C' →
+      ∃ C, Map.lookup channel w.channels = some C ∧ Removed ks C C') := by
+  induction ks generalizing w with
+  | nil =>
+    refine ⟨rfl, by simp, fun _ _ => rfl, ?_⟩
+    intro C' h; exact ⟨C', h, Removed.refl C'⟩
+  | cons k ks ih =>
+    simp only [List.foldl_cons]
+    obtain ⟨s1, s2, s3, s4⟩ := World.removeUserFromChannel_spec w channel k
+    have hnd' : ks.Nodup := (List.nodup_cons.mp hnd).2
+    have hk : k ∉ ks := (List.nodup_cons.mp hnd).1
+    -- facts about the first step
+    have hp : (w.removeUserFromChannel channel k).panicked = w.panicked := by
+      cases hch : Map.lookup channel w.channels with
+      | none => exact (s3 hch).2
+      | some C => exact (s4 C hch (hmem C hch k List.mem_cons_self)).1
+    have hstep : ∀ C1, Map.lookup channel (w.removeUserFromChannel channel k).channels = some C1 →
+        ∃ C, Map.lookup channel w.channels = some C ∧ Removed [k] C C1 := by
+      intro C1 hC1
+      cases hch : Map.lookup channel w.channels with
+      | none => rw [(s3 hch).1, hch] at hC1; cases hC1
+      | some C => exact ⟨C, rfl, (s4 C hch (hmem C hch k List.mem_cons_self)).2 C1 hC1⟩
+    have hmem' : ∀ C1, Map.lookup channel (w.removeUserFromChannel channel k).channels = some C1 →
+        ∀ k' ∈ ks, Map.contains k' C1.users = true := by
+      intro C1 hC1 k' hk'
+      obtain ⟨C, hC, hrem⟩ := hstep C1 hC1
+      have hne : k' ≠ k := fun e => hk (e ▸ hk')
+      have := hmem C hC k' (List.mem_cons_of_mem _ hk')
+      rw [Map.contains_iff] at this ⊢
+      obtain ⟨v, hv⟩ := this
+      exact ⟨v, by rw [hrem.users]; simp [hne, hv]⟩
+    obtain ⟨i1, i2, i3, i4⟩ := ih (w.removeUserFromChannel channel k) hnd' hmem'
+    refine ⟨?_, ?_, ?_, ?_⟩
+    · rw [i1]; rw [s1]; simp only [hp]
+    · intro n
+      rw [i2, s1]
+      simp only
+      rw [Map.lookup_modify]
+      by_cases hn : n = k
+      · subst hn
+        cases Map.lookup n w.users <;> simp [hk]
+      · have hn' : ¬ k = n := fun e => hn e.symm
+        simp only [hn', ↓reduceIte, List.mem_cons, hn, false_or]
+    · intro c hc
+      rw [i3 c hc, s2 c hc]
+    · intro C' hC'
+      obtain ⟨C1, hC1, hrem1⟩ := i4 C' hC'
+      obtain ⟨C, hC, hrem⟩ := hstep C1 hC1
+      exact ⟨C, hC, hrem.trans hrem1⟩
+
+/-! ### KICK: the handler -/
+
+theorem foldl_reply_eq (cfg : Cfg) (errs : List Str) (x : Ctx) :
+    errs.foldl (fun x e => x.reply cfg e) x =
+      { x with direct := x.direct ++ errs.map (fun e => ':' :: (cfg.name ++ ' ' :: e)) } := by
+  induction errs generalizing x with
+  | nil => simp
+  | cons e es ih => simp only [List.foldl_cons, ih]; simp [Ctx.reply]
+
+/-- the text of the KICK announcement for victim `ku` -/
+def kickMsg (channel ku : Str) (comment : Option Str) : Str :=
+  str "KICK " ++ channel ++ [' '] ++ ku ++ str " :" ++ comment.getD (str "Kicked")
+
+theorem Ctx.sendDisplay_known (x : Ctx) (n src t : Str) (h : Map.contains n x.w.users = true) :
+    x.sendDisplay n src t = { x with queued := x.queued ++ [(ownerOf x.w n, ':' :: (src ++ ' ' :: t))] } :=
+  Ctx.send_known x n _ h
+
+theorem kickSend_known (src channel : Str) (comment : Option Str) (remaining kicked : List Str) (x : Ctx)
+    (hr : ∀ n ∈ remaining, Map.contains n x.w.users = true)
+    (hk : ∀ n ∈ kicked, Map.contains n x.w.users = true) :
+    kicked.foldl (fun x ku =>
+        (remaining.foldl (fun x n => x.sendDisplay n src (kickMsg channel ku comment)) x).sendDisplay ku src
+          (kickMsg channel ku comment)) x =
+      { x with queued := x.queued ++ kicked.flatMap (fun ku => (remaining ++ [ku]).map (fun n =>
+          (ownerOf x.w n, ':' :: (src ++ ' ' :: kickMsg channel ku comment)))) } := by
+  induction kicked generalizing x with
+  | nil => simp
+  | cons ku ks ih =>
+    simp only [List.foldl_cons]
+    rw [Ctx.sendDisplayAll_known x remaining src _ hr]
+    have hku := hk ku List.mem_cons_self
+    rw [Ctx.sendDisplay_known (h := by exact hku)]
+    rw [ih]
+    · simp
+    · exact hr
+    · intro n hn; exact hk n (List.mem_cons_of_mem _ hn)
+
+
+theorem flatMap_congr' {α β : Type} (l : List α) (f g : α → List β) (h : ∀ a ∈ l, f a = g a) :
+    l.flatMap f = l.flatMap g := by
+  induction l with
+  | nil => rfl
+  | cons a l ih =>
+    simp only [List.flatMap_cons]
+    rw [h a List.mem_cons_self, ih (fun b hb => h b (List.mem_cons_of_mem _ hb))]
+
+theorem ownerOf_congr (w w' : World) (n : Str) (f : User → User) (hf : ∀ u, (f u).owner = u.owner)
+    (h : Map.lookup n w'.users = (Map.lookup n w.users).map f) : ownerOf w' n = ownerOf w n := by
+  unfold ownerOf
+  rw [h]
+  cases Map.lookup n w.users <;> simp [hf]
+
+/-- the successful path of `processKick` in closed form -/
+theorem processKick_ok (cfg : Cfg) (c : Nat) (channel : Str) (kickUsers : List Str) (comment : Option Str)
+    (x : Ctx) (nick : Str) (ch : Channel) (chum : ChanUserModes)
+    (hnick : (x.conn c).nick = some nick) (hch : Map.lookup channel x.w.channels = some ch)
+    (hm : Map.lookup nick ch.users = some chum) (hH : chum.isHalfOperator = true)
+    (hmem : ∀ n, Map.contains n ch.users = true → Map.contains n x.w.users = true) :
+    let cn := x.conn c
+    let sel := kickSelect cn.clientName channel ch chum.isOnlyHalfOperator kickUsers []
+    let w' := sel.1.foldl (fun w ku => w.removeUserFromChannel channel ku) x.w
+    let remaining : List Str := match Map.lookup channel w'.channels with
+      | some C' => Map.keys C'.users
+      | none => []
+    let x' := processKick cfg c channel kickUsers comment x
+    x'.w = w' ∧
+    x'.direct = x.direct ++ sel.2.map (fun e => ':' :: (cfg.name ++ ' ' :: e)) ∧
+    x'.queued = x.queued ++ sel.1.flatMap (fun ku => (remaining ++ [ku]).map (fun n =>
+      (ownerOf x.w n, ':' :: (cn.source ++ ' ' :: kickMsg channel ku comment)))) := by
+  intro cn sel w' remaining x'
+  have hsel_mem : ∀ k ∈ sel.1, Map.contains k ch.users = true := by
+    intro k hk
+    rw [kickSelect_fst_mem] at hk
+    rcases hk with hk | ⟨_, m, hm', _⟩
+    · cases hk
+    · exact Map.contains_of_lookup hm'
+  have hnd : sel.1.Nodup := kickSelect_fst_nodup _ _ _ _ _ _ List.nodup_nil
+  obtain ⟨f1, f2, f3, f4⟩ := kickFold_spec channel sel.1 x.w hnd
+    (by intro C hC; rw [hch] at hC; cases hC; exact hsel_mem)
+  have hknown : ∀ n, Map.contains n ch.users = true → Map.contains n w'.users = true := by
+    intro n hn
+    have := hmem n hn
+    rw [Map.contains_iff] at this ⊢
+    obtain ⟨u, hu⟩ := this
+    exact ⟨_, by rw [f2 n, hu]; rfl⟩
+  have hrem : ∀ n ∈ remaining, Map.contains n ch.users = true := by
+    intro n hn
+    simp only [remaining] at hn
+    cases hC' : Map.lookup channel w'.channels with
+    | none => rw [hC'] at hn; cases hn
+    | some C' =>
+      rw [hC'] at hn
+      obtain ⟨C, hC, hR⟩ := f4 C' hC'
+      rw [hch] at hC; cases hC
+      simp only [] at hn
+      rw [hR.keys, List.mem_filter] at hn
+      exact (Map.contains_iff_mem_keys _ _).mpr hn.1
+  have hown : ∀ n, ownerOf w' n = ownerOf x.w n := by
+    intro n
+    exact ownerOf_congr x.w w' n _ (by intro u; split <;> rfl) (f2 n)
+  show (processKick cfg c channel kickUsers comment x).w = _ ∧
+    (processKick cfg c channel kickUsers comment x).direct = _ ∧
+    (processKick cfg c channel kickUsers comment x).queued = _
+  unfold processKick
+  simp only [hnick, hch, hm, hH, ↓reduceIte]
+  rw [foldl_reply_eq]
+  simp only [Ctx.modifyW_w]
+  change (sel.1.foldl (fun x ku =>
+        (remaining.foldl (fun x n => x.sendDisplay n cn.source (kickMsg channel ku comment)) x).sendDisplay ku
+          cn.source (kickMsg channel ku comment))
+        (Ctx.modifyW { x with direct := x.direct ++ sel.2.map (fun e => ':' :: (cfg.name ++ ' ' :: e)) }
+          (fun w => sel.1.foldl (fun w ku => w.removeUserFromChannel channel ku) w))).w = _ ∧
+    (sel.1.foldl (fun x ku =>
+        (remaining.foldl (fun x n => x.sendDisplay n cn.source (kickMsg channel ku comment)) x).sendDisplay ku
+          cn.source (kickMsg channel ku comment))
+        (Ctx.modifyW { x with direct := x.direct ++ sel.2.map (fun e => ':' :: (cfg.name ++ ' ' :: e)) }
+          (fun w => sel.1.foldl (fun w ku => w.removeUserFromChannel channel ku) w))).direct = _ ∧
+    (sel.1.foldl (fun x ku =>
+        (remaining.foldl (fun x n => x.sendDisplay n cn.source (kickMsg channel ku comment)) x).sendDisplay ku
+          cn.source (kickMsg channel ku comment))
+        (Ctx.modifyW { x with direct := x.direct ++ sel.2.map (fun e => ':' :: (cfg.name ++ ' ' :: e)) }
+          (fun w => sel.1.foldl (fun w ku => w.removeUserFromChannel channel ku) w))).queued = _
+  rw [kickSend_known]
+  · simp only [Ctx.modifyW_w, Ctx.modifyW_direct, Ctx.modifyW_queued]
+    refine ⟨rfl, trivial, ?_⟩
+    congr 1
+    apply flatMap_congr'
+    intro ku _
+    apply List.map_congr_left
+    intro n _
+    rw [show (List.foldl (fun w ku => w.removeUserFromChannel channel ku) x.w sel.1) = w' from rfl, hown]
+  · intro n hn; exact hknown n (hrem n hn)
+  · intro n hn; exact hknown n (hsel_mem n hn)
+
+
+/-! ### a small concrete world for the `decide` examples of C08 / C09 -/
+
+namespace PrivEx
+
+def mkUser (n : String) (owner : Nat) (chans : List Str) : User :=
+  { hostname := str "h", name := str n, realname := str n, source := str n ++ str "!~" ++ str n ++ str "@h",
+    modes := {}, channels := chans,
+    history := { username := str n, hostname := str "h", realname := str n }, owner := owner }
+
+def mkConn (id : Nat) (n : String) : Conn :=
+  { id := id, hostname := str "h", nick := some (str n), name := some (str n),
+    source := str n ++ str "!~" ++ str n ++ str "@h", authenticated := true, registered := true,
+    hasSender := false, hasQuitSender := false, hasPingSender := false }
+
+/-- `#c`: alice founder+operator, hank half-operator, vic voice, pat plain (`out` is not on it). -/
+def chan : Channel :=
+  { users := [(str "alice", { founder := true, operator := true }), (str "hank", { halfOper := true }),
+              (str "vic", { voice := true }), (str "pat", {})]
+    modes := { founders := [str "alice"], operators := [str "alice"], halfOperators := [str "hank"],
+               voices := [str "vic"] } }
+
+def w0 : World :=
+  { users := [(str "alice", mkUser "alice" 1 [str "#c"]), (str "hank", mkUser "hank" 2 [str "#c"]),
+              (str "vic", mkUser "vic" 3 [str "#c"]), (str "pat", mkUser "pat" 4 [str "#c"]),
+              (str "out", mkUser "out" 5 [])]
+    channels := [(str "#c", chan)]
+    conns := [mkConn 1 "alice", mkConn 2 "hank", mkConn 3 "vic", mkConn 4 "pat", mkConn 5 "out"]
+    connsCount := 5, maxUsers := 5 }
+
+/-- connection ids: 1 alice (founder), 2 hank (half-operator), 3 vic (voice), 4 pat (plain), 5 out -/
+def x0 : Ctx := { w := w0 }
+def cfg : Cfg := {}
+
+/-- the channel `#c` after a handler ran -/
+def chanAfter (x : Ctx) : Option Channel := Map.lookup (str "#c") x.w.channels
+
+/-- the `qaohv` letters of a member of `#c` after a handler ran -/
+def rankAfter (x : Ctx) (n : String) : Option Str :=
+  (chanAfter x).bind (fun C => (Map.lookup (str n) C.users).map (·.letters))
+
+example : invCheck w0 = [] := by decide
+
+end PrivEx
 
 end Irc
